@@ -661,6 +661,7 @@ class ExprMixin:
         c = state.heap.get(obj.loc)
         if c is None:
             return
+        self.list_version[obj.loc] = self.list_version.get(obj.loc, 0) + 1
         self.event("mutate", node, origin=c.origin, loc=obj.loc, wkind=kind, ptr=obj)
         if c.origin.startswith("input") or c.origin.startswith("global") or c.origin.startswith("default"):
             state.effects = state.effects | {(c.origin, kind)}
@@ -759,6 +760,9 @@ class ExprMixin:
                 v = subst_val(seq.elem, {seq.kvar: it})
                 if seq.witness is not None and it == STAR:
                     v = join_val(v, seq.witness)
+                if isinstance(v, Num) and v.sym is None and isinstance(obj, Ptr) and it != STAR and it[0] in ("v", "perm") and all(i[0] in ("v", "c", "perm") for i in obj.idx):
+                    # value numbering of list reads: same list, same position, no intervening mutation
+                    v = replace(v, sym=("elem", obj.loc + f"#v{self.list_version.get(obj.loc, 0)}", obj.idx, it))
                 return v
             if isinstance(key, Top):
                 return subst_val(seq.elem, {seq.kvar: STAR})
